@@ -157,13 +157,53 @@ def directed_modes(seed):
     finally:
         p.cleanup()
 
+def directed_src_policy():
+    """source directories only on request: after a recipe was dropped its unused SOURCE workspace goes away only with -s/--src
+    (whatever other options are given), unused build/package workspaces go away always, --dry-run deletes nothing"""
+    base_model = {'recipes': {'r0': {'root': True, 'depends': ['lib'], 'buildScript': 'cp "$2"/result.txt out.txt\n', 'packageScript': 'cp "$1"/out.txt result.txt\n'},
+                              'lib': {'checkoutDeterministic': True, 'checkoutScript': 'echo src > s.txt\n', 'buildScript': 'cp "$1"/s.txt out.txt\n', 'packageScript': 'cp "$1"/out.txt result.txt\n'}}, 'config': {}}
+    dropped = {'recipes': {'r0': {'root': True, 'buildScript': 'echo alone > out.txt\n', 'packageScript': 'cp "$1"/out.txt result.txt\n'}}, 'config': {}}
+    log = []
+    try:
+        for mode, build_cmd, top in (('develop', 'dev', 'dev'), ('release', 'build', 'work')):
+            for opts in (['-f'], [], ['-v'], ['-s'], ['-s', '-f'], ['--dry-run', '-f'], ['--dry-run', '-s', '-f']):
+                p = P.Project(prefix='c16s-')
+                try:
+                    p.write(base_model); rc, out = p.bob(build_cmd, 'r0')
+                    if rc != 0: return None, ['harness problem: project does not build']
+                    p.write(dropped); rc, out = p.bob(build_cmd, 'r0')
+                    def ws():
+                        o = set()
+                        for dp, ds, fs in os.walk(os.path.join(p.dir, top)):
+                            if os.path.basename(dp) == 'workspace': o.add(os.path.relpath(dp, p.dir)); ds[:] = []
+                        return o
+                    before = ws()
+                    args = ['clean'] + (['--release'] if mode == 'release' else []) + opts
+                    rc, out = p.bob(*args); log.append('%s: bob %s' % (mode, ' '.join(args)))
+                    gone = before - ws()
+                    is_src = lambda d: '/src/' in ('/' + d + '/')
+                    src_gone = sorted(d for d in gone if is_src(d)); other_gone = sorted(d for d in gone if not is_src(d))
+                    if '--dry-run' in opts and gone:
+                        return {'kind': 'dry-run-deleted', 'deleted': sorted(gone)[:4], 'history': log}, log
+                    if '-s' not in opts and src_gone:
+                        return {'kind': 'source-directory-deleted-without-request', 'deleted': src_gone[:4], 'options': opts, 'mode': mode, 'history': log}, log
+                    if '--dry-run' not in opts and not any('lib' in d for d in other_gone):
+                        return {'kind': 'clean-kept-garbage', 'kept': sorted(d for d in ws() if 'lib' in d and not is_src(d))[:4], 'options': opts, 'mode': mode, 'history': log}, log
+                    if '-s' in opts and '--dry-run' not in opts and not src_gone:
+                        return {'kind': 'clean-kept-unused-source-directory-although-requested', 'options': opts, 'mode': mode, 'history': log}, log
+                finally:
+                    p.cleanup()
+        return None, log
+    except Exception as ex:
+        return None, ['harness problem: %r' % (ex,)]
+
 def replay(rep):
     seed = int(os.environ.get('VERIF_SEED', '0') or 0)
     thorough = os.environ.get('VERIF_TIER') == 'thorough'
     n = 32 if thorough else 10; steps = 4 if thorough else 3
     tried = 0; distinct = set(); samples = []; problems = 0
     with cf.ThreadPoolExecutor(max_workers=8) as ex:
-        futs = [ex.submit(directed, seed), ex.submit(directed_twins, seed), ex.submit(directed_modes, seed), ex.submit(directed_modes, seed + 77)] + [ex.submit(one_history, seed * 1000 + i, steps) for i in range(n)]
+        futs = [ex.submit(directed, seed), ex.submit(directed_twins, seed), ex.submit(directed_src_policy), ex.submit(directed_modes, seed), ex.submit(directed_modes, seed + 77)] + [ex.submit(one_history, seed * 1000 + i, steps) for i in range(n)]
         for f in cf.as_completed(futs):
             w, log = f.result(); tried += 1
             if log and str(log[-1]).startswith('harness problem'): problems += 1; continue
@@ -172,5 +212,5 @@ def replay(rep):
             if w is not None: return {'reproduced': True, 'tried': tried, 'witness': w}
     if problems > tried // 2: return {'reproduced': None, 'detail': 'harness problems in %d of %d cases' % (problems, tried)}
     return {'reproduced': False, 'tried': tried, 'distinct': len(distinct), 'samples': samples,
-            'bound': '4 directed histories (variants, identical twin recipes, 2 x release+develop mode clean) + %d generated projects with %d edits each, bob clean after 60%% of the builds' % (n, steps),
+            'bound': '5 directed histories (variants, identical twin recipes, 2 x release+develop mode clean, option matrix of clean over a dropped recipe: sources only with -s) + %d generated projects with %d edits each, bob clean after 60%% of the builds' % (n, steps),
             'detail': 'directory table injective and stable; clean kept every used directory and removed the rest'}
